@@ -10,7 +10,7 @@ def Stops (s : St) : Op → Prop
   | .setEnabled on => on = false ∧ s.port.enabled = true
   | .malformed => False
 
-theorem startOp_stops (fix : Fix) (s : St) (opId : Nat) (op : Op) (hw : s.waiting = none) (h : Stops s op) :
+theorem startOp_stops (fix : Fix) (s : St) (opId : Nat) (op : Op) (hw : s.cancelling = false) (h : Stops s op) :
     startOp fix s opId op = cancelThen fix s opId op := by
   cases op with
   | patchSeq vs ds r => simp [Stops] at h; simp [startOp, hw, h]
@@ -19,7 +19,7 @@ theorem startOp_stops (fix : Fix) (s : St) (opId : Nat) (op : Op) (hw : s.waitin
   | malformed => exact h.elim
 
 theorem startOp_refused (fix : Fix) (s : St) (opId : Nat) (vs : List Val) (ds : List Int) (r : Int) (e : Err)
-    (hw : s.waiting = none) (hv : validate s.maxItems s.port vs ds = some e) :
+    (hw : s.cancelling = false) (hv : validate s.maxItems s.port vs ds = some e) :
     startOp fix s opId (.patchSeq vs ds r) = s.emit (.ret s.now opId (.refused e)) := by
   simp [startOp, hw, hv]
 
